@@ -122,6 +122,16 @@ func init() {
 		return VBool{Not(Eq(v, idxC(v, 0)))}
 	}
 	intrinsics["time.Now"] = func(e *Exec, a []Value) Value { return zero(timeType) }
+	clock := func(e *Exec, a []Value) Value {
+		e.nondet++
+		if intMode {
+			return VInt{e.imFresh(sprintf("clock_%d", e.nondet), 64, true)}
+		}
+		return VInt{e.fresh(sprintf("clock_%d", e.nondet), 64)}
+	}
+	intrinsics["(time.Time).UnixNano"] = clock
+	intrinsics["(time.Time).Unix"] = clock
+	intrinsics["(time.Time).UnixMilli"] = clock
 	intrinsics["time.Since"] = func(e *Exec, a []Value) Value {
 		e.nondet++
 		if intMode {
